@@ -88,6 +88,11 @@ def run(index: RepoIndex, rep) -> None:
              'same triple in every cell and in every instance', floor=16)
     from .c15 import type_sets
     type_sets(index, rep, 'C16.R8')
+    rep.rule('C16.R10', 'the member states the encodings are injective over are those whose '
+             'every object -- cells and held item -- has a declared type and colour: the '
+             'membership predicates cover each facet (C01.R3)', floor=20)
+    from .c01 import membership
+    membership(index, rep, 'C16.R10')
     rep.rule('C16.R9', 'the collections the compact encoding numbers hold each type / colour '
              'once (a repeated colour takes an index and leaves a gap) (C01.R3)', floor=8)
     from .c01 import space_sets
